@@ -42,11 +42,11 @@ def run_child(scratch, hist, variant, k, tag, points=False):
     return d, ledger, pts, rc, err
 
 
-def run_recover(scratch, d, ledger, tag, deliver):
+def run_recover(scratch, d, ledger, tag, deliver, dry_ledger=None):
     result = os.path.join(scratch, f"{tag}", "recovery.json")
     env = dict(os.environ, PYTHONHASHSEED="0", PYTHONDONTWRITEBYTECODE="1")
     try:
-        r = subprocess.run([PY, "-B", "-m", "asimap_verif.crash", "recover", d, ledger, result] + (["deliver"] if deliver else []), env=env, capture_output=True, timeout=90)
+        r = subprocess.run([PY, "-B", "-m", "asimap_verif.crash", "recover", d, ledger, result, "deliver" if deliver else "-", dry_ledger or "-"], env=env, capture_output=True, timeout=90)
         err = r.stderr.decode("latin-1")[-600:]
     except subprocess.TimeoutExpired:
         return None, "recovery process timed out (inconclusive)"
@@ -56,7 +56,134 @@ def run_recover(scratch, d, ledger, tag, deliver):
         return json.load(f), err
 
 
+SYSCALL_LANES = {
+    # Python file I/O: message files and .mh_sequences are written by the
+    # thread that runs the command; folder operations (unlink, rename, mkdir,
+    # utime) are already kill points of the Python-level tier, what this lane
+    # adds are the states *inside* one such mutation: created-but-empty message
+    # file, truncated .mh_sequences, written but not yet synced
+    "write": "write,writev,fsync,ftruncate",
+    # SQLite: database pages, journal, syncs, journal removal (the commit
+    # point) -- all issued by the aiosqlite thread
+    "db": "pwrite64,fdatasync,unlink,unlinkat",
+}
+
+
+def classify_path(line):
+    import re
+
+    m = re.search(r"<([^>]*)>", line)
+    p = m.group(1) if m else ""
+    if not p:
+        m = re.search(r'"([^"]*)"', line)
+        p = m.group(1) if m else ""
+    if p.endswith("asimap.db-journal"):
+        return "journal"
+    if p.endswith(("asimap.db", "asimap.db-wal")):
+        return "db"
+    if p.endswith(".mh_sequences"):
+        return "mh_sequences"
+    if "/mail/" in p or p.endswith("/mail"):
+        return "msgfile" if re.search(r"/\d+$", p) else "folder"
+    return "other"
+
+
+def run_syscall_shard(spec):
+    """Kill before the K-th syscall of a lane (strace fault injection: SIGKILL
+    on syscall entry), so that states *between* two system calls of one
+    Python-level mutation are produced: a truncated .mh_sequences, a half
+    written message file, a journal written but not yet synced..."""
+    scratch = spec["scratch"]
+    hist, variant, lane = spec["hist"], spec["variant"], spec["lane"]
+    part, parts = spec["part"], spec["parts"]
+    counts = Counter()
+    cases = []
+    env = dict(os.environ, PYTHONHASHSEED="0", PYTHONDONTWRITEBYTECODE="1")
+    # complete run: the reference ledger for in-flight tolerance
+    d, dry_ledger, _, rc, err = run_child(scratch, hist, variant, 0, "dry")
+    if rc != 0:
+        return {"cases": [Case.make(f"{hist}/{variant}:{lane}:dry", INCONCLUSIVE, spec=spec, reason=f"dry run failed rc={rc}: {err}")], "counts": {}}
+    keep = os.path.join(scratch, "dry-ledger.jsonl")
+    shutil.copy(dry_ledger, keep)
+    shutil.rmtree(os.path.join(scratch, "dry"), ignore_errors=True)
+    sset = SYSCALL_LANES[lane]
+    k = part if part else parts
+    done = 0
+    misses = 0
+    only = spec.get("only_k")
+    while True:
+        if only is not None:
+            k = only
+        tag = f"s{k}"
+        base = os.path.join(scratch, tag)
+        d = os.path.join(base, "mail")
+        os.makedirs(base, exist_ok=True)
+        ledger = os.path.join(base, "ledger.jsonl")
+        slog = os.path.join(base, "strace.txt")
+        subprocess.run([PY, "-B", "-m", "asimap_verif.crash", "prepare", d, variant], env=env, capture_output=True, timeout=60)
+        try:
+            r = subprocess.run(["strace", "-f", "-qq", "-y", "-o", slog, "-e", "trace=" + sset, "-e", f"inject={sset}:signal=SIGKILL:when={k}",
+                                PY, "-B", "-m", "asimap_verif.crash", "child", d, hist, "0", ledger, "-", variant], env=env, capture_output=True, timeout=300)
+            rc = r.returncode
+        except subprocess.TimeoutExpired:
+            rc = "timeout"
+        counts["syscall_runs"] += 1
+        killed = rc in (-9, 137)
+        if rc == "timeout":
+            cases.append(Case.make(f"{hist}/{variant}:{lane}:s{k}", INCONCLUSIVE, spec=dict(spec, only_k=k), reason="traced child timed out"))
+        elif not killed:
+            # no thread reached its K-th syscall of this lane: the history is exhausted for this lane
+            shutil.rmtree(base, ignore_errors=True)
+            counts["lane_exhausted:" + lane] += 1
+            break
+        else:
+            last = ""
+            try:
+                with open(slog, errors="replace") as f:
+                    lines = f.readlines()
+                for ln in reversed(lines):
+                    if "= ?" in ln and "+++" not in ln:
+                        last = ln.strip()
+                        break
+                if not last:
+                    for ln in reversed(lines):
+                        if "<unfinished" in ln:
+                            last = ln.strip()
+                            break
+            except OSError:
+                pass
+            sc = last.split("(", 1)[0].split()[-1] if last else "?"
+            pk = classify_path(last)
+            counts["syskill:" + sc] += 1
+            counts["syskill_at:" + pk] += 1
+            counts["syscall_kills"] += 1
+            deliver = (k % 4 == 0) and hist != "startup"
+            res, rerr = run_recover(scratch, d, ledger, tag, deliver, keep)
+            spec_k = dict(spec, only_k=k)
+            sample = {"history": hist, "variant": variant, "lane": lane, "kill_before_syscall": k, "syscall": last[:160], "deliver_while_down": deliver}
+            key = f"{hist}/{variant}/{lane}/{sc}/{pk}/{(res or {}).get('model_step')}"
+            if res is None or res.get("harness_error"):
+                cases.append(Case.make(f"{hist}/{variant}:{lane}:s{k}", INCONCLUSIVE, spec=spec_k, reason=rerr if res is None else "recovery harness error: " + res["harness_error"][-300:], sample=sample))
+            elif not res["ok"]:
+                counts["recoveries_checked"] += 1
+                cases.append(Case.make(f"{hist}/{variant}:{lane}:s{k}", VIOLATED, spec=spec_k, nontrivial=pk != "other", key=key, sample=sample,
+                                       witness={"kind": res["problems"][0][0], "detail": res["problems"][0][1], "all": [p[0] for p in res["problems"]], "history": hist, "variant": variant, "lane": lane, "k": k,
+                                                "syscall": last[:200], "killed_at": pk, "inflight": res.get("inflight"), "deliver_while_down": deliver, "model_step": res.get("model_step")}))
+            else:
+                counts["recoveries_checked"] += 1
+                counts["oracle_checks"] += res.get("checks", 0) or 0
+                cases.append(Case.make(f"{hist}/{variant}:{lane}:s{k}", HELD, spec=spec_k, nontrivial=pk != "other", key=key, sample=sample))
+        shutil.rmtree(base, ignore_errors=True)
+        done += 1
+        if only is not None or (spec.get("limit") and done >= spec["limit"]):
+            break
+        k += parts * spec.get("stride", 1)
+    return {"cases": cases, "counts": dict(counts)}
+
+
 def run_shard(spec):
+    if spec.get("lane"):
+        return run_syscall_shard(spec)
     scratch = spec["scratch"]
     hist, variant = spec["hist"], spec["variant"]
     part, parts = spec["part"], spec["parts"]
@@ -69,7 +196,8 @@ def run_shard(spec):
         P = json.load(f)
     n = P["n"]
     points = {p[0]: p for p in P["points"]}
-    # the dry run itself must leave a recoverable directory (kill "after everything")
+    keep = os.path.join(scratch, "dry-ledger.jsonl")
+    shutil.copy(ledger, keep)
     shutil.rmtree(os.path.join(scratch, "dry"), ignore_errors=True)
     ks = [k for k in range(1, n + 2) if k % parts == part]
     limit = spec.get("limit")
@@ -98,7 +226,7 @@ def run_shard(spec):
             shutil.rmtree(os.path.join(scratch, tag), ignore_errors=True)
             continue
         deliver = (k % 3 == 0) and hist != "startup"
-        res, rerr = run_recover(scratch, d, ledger, tag, deliver)
+        res, rerr = run_recover(scratch, d, ledger, tag, deliver, keep)
         inside = first_cmd.get(cmdlabel, 0) < k <= last_cmd.get(cmdlabel, 0)
         spec_k = dict(spec, only_k=k)
         sample = {"history": hist, "variant": variant, "kill_before_point": k, "of": n, "point": list(pt[1:]), "deliver_while_down": deliver}
@@ -131,6 +259,18 @@ def plan(tier, seed, scale):
             if tier == "quick" and hist != "startup":
                 sp["limit"] = int(30 * scale)
             specs.append(sp)
+    # syscall-level lanes (strace fault injection)
+    if tier == "quick":
+        lanes = [("messages", "", "write", 8, None, 1), ("messages", "", "db", 8, 4, 29), ("inboxpack", "", "write", 6, 5, 2)]
+    else:
+        lanes = [(h, v, lane, 12 if lane == "db" else 6, None, 1) for h, v in (("messages", ""), ("namespace", ""), ("inboxpack", ""), ("startup", ""), ("startup", "schema1"), ("messages", "preexisting"))
+                 for lane in ("write", "db")]
+    for hist, variant, lane, parts, limit, stride in lanes:
+        for part in range(parts):
+            sp = {"prop": PROP, "tier": tier, "seed": seed, "hist": hist, "variant": variant, "lane": lane, "part": part, "parts": parts, "stride": stride, "scripts": [0]}
+            if limit:
+                sp["limit"] = limit
+            specs.append(sp)
     for i, s in enumerate(specs):
         s["shard"] = i
     return specs
@@ -141,6 +281,8 @@ SHARD_TIMEOUT = {"quick": 900, "thorough": 3400}
 
 def replay_specs(rp):
     sp = dict(rp["case"]["spec"])
+    if sp.get("lane"):
+        return [sp]
     k = sp.pop("only_k", None)
     if k is not None:
         sp["parts"] = 10 ** 9
